@@ -41,6 +41,14 @@ impl<'a, CT> Context<'a, CT> {
         self.question_stack.contains(question)
     }
 
+    /// Is an address (`A` or `AAAA`) of this name being resolved right now?
+    pub fn is_resolving_address_of(&self, name: &DomainName) -> bool {
+        self.question_stack.iter().any(|q| {
+            q.name == *name
+                && matches!(q.qtype, QueryType::Record(RecordType::A | RecordType::AAAA))
+        })
+    }
+
     pub fn push_question(&mut self, question: &Question) {
         self.question_stack.push(question.clone());
     }
